@@ -14,12 +14,12 @@ PROPERTY = "C31"
 FUNCTIONS = ["wannierberri.system.system_kp.SystemKP.__init__ (k_to_1BZ, k_ham_from_red, derHam/der2Ham/der3Ham)", "wannierberri.system.__finite_differences.find_shells/check_B1/Derivative3D.__call__",
              "wannierberri.data_K.data_K_k.Data_K_k.HH_K/Xbar", "wannierberri.data_K.data_K.Data_K._rotate"]
 BOUNDS = dict(quick=dict(num_wann="1..2", Hamiltonian="polynomial of total degree <= 3 in k (all monomials) with symbolic Hermitian matrix coefficients in [-1,1]",
-                         lattices="kmax=2 (cubic), tetragonal, hexagonal and one triclinic recip_lattice (triclinic: derivatives up to second order)", k="symbolic reduced k in [-0.49,0.49]^3; kp-face cases: one component anywhere in [-1/2,1/2), all three derivatives, analytic derHam / der2Ham supplied or not", conventions="cartesian and reduced k-vector",
+                         lattices="kmax=2 (cubic), tetragonal, hexagonal and one triclinic recip_lattice (triclinic: derivatives up to second order)", k="symbolic reduced k in [-0.49,0.49]^3; kp-face cases: one component anywhere in [-1/2,1/2), all three derivatives, analytic derHam / der2Ham supplied or not", conventions="cartesian and reduced k-vector; derivatives all numerical, or analytic derHam / der2Ham / der3Ham supplied up to order 1, 2, 3 (both conventions, all four non-identity reciprocal lattices)",
                          finite_diff_dk="1e-4 (default), 1e-3", tolerance="1e-8 absolute (coefficients and k bounded as stated)"),
               thorough=dict(num_wann="1..3", Hamiltonian="as quick", lattices="as quick, triclinic up to third order", k="as quick (|k_i| <= 0.45 for dk=1e-2), 2 k-points through Data_K_k", conventions="both",
                             finite_diff_dk="1e-4, 1e-3, 1e-2", tolerance="1e-8"))
 EXPLANATION = ("SystemKP is given only a Hamiltonian that is a polynomial in k with symbolic Hermitian coefficient matrices; the real find_shells / Derivative3D chain produces derHam, der2Ham, "
-               "der3Ham, which are evaluated at a symbolic k (the box folding `% 1` is resolved by the path explorer).  z3 decides (tolerance shape, double stencil weights) that they equal the "
+               "der3Ham (in the kp-supplied cases the user also supplies the analytic derivatives up to order 1, 2 or 3 and only the higher ones are numerical), which are evaluated at a symbolic k (the box folding `% 1` is resolved by the path explorer).  z3 decides (tolerance shape, double stencil weights) that they equal the "
                "analytic cartesian derivatives - exactly the analytic ones for every derivative the stencil differentiates a polynomial of degree <= 2, plus the explicit O(dk^2) stencil term "
                "(1/6) sum_b w_b b_a (b.grad)^3 H for the first derivative of a cubic - and (exact identity) that all three are Hermitian; the same through Data_K_k.Xbar.")
 ASSUMPTIONS = ["interior cases: reduced k in [-0.49,0.49]^3 (keeps the number of folding branches at one); the kp-face cases drop this for one component (whole box [-1/2,1/2), "
@@ -91,7 +91,7 @@ def obligations(rec, spec, A, xp):
     G0 = np.eye(3) * 2 * lat["kmax"] if lat["kmax"] is not None else lat["recip_lattice"]
     J = np.eye(3) if cart else np.linalg.inv(G0)    # d k_ham_i / d k_cart_a
     sup = spec.get("supplied", 0)                   # the user supplies the analytic derivatives up to this order, the rest is numerical
-    user = {name: (lambda kh, o=o: analytic(C, kh, J, o, nb)) for o, name in ((1, "derHam"), (2, "der2Ham")) if o <= sup}
+    user = {name: (lambda kh, o=o: analytic(C, kh, J, o, nb)) for o, name in ((1, "derHam"), (2, "der2Ham"), (3, "der3Ham")) if o <= sup}
     system = SKP.SystemKP(Ham, k_vector_cartesian=cart, finite_diff_dk=spec["dk"], **user, **lat)
     G = np.asarray(system.recip_lattice, dtype=float)
     Ginv = np.linalg.inv(G)
@@ -169,10 +169,22 @@ def cases(tier, seed):
     faces = [("cubic", True, 3, 0, 0, 1e-4), ("hex", False, 2, 0, 1, 1e-4), ("cubic", True, 3, 1, 0, 1e-3), ("tetra", True, 3, 2, 2, 1e-4)]
     if not q:
         faces += [("tetra", False, 3, 0, 2, 1e-3), ("hex", True, 3, 1, 0, 1e-4), ("cubic", False, 3, 0, 1, 1e-2), ("tric", True, 2, 1, 2, 1e-4)]
+    # analytic derivatives supplied by the user up to order `sup` (the higher ones numerical), in both k-vector conventions, on cells whose reciprocal lattice is not the identity
+    if q:
+        supplied = [("cubic", False, 3, 2, 1), ("hex", False, 3, 1, 1), ("tetra", False, 3, 1, 2), ("tric", False, 2, 1, 3), ("hex", True, 3, 1, 2), ("cubic", True, 3, 2, 3), ("tetra", True, 2, 1, 1)]
+        faces += [("hex", False, 3, 1, 0, 1e-4), ("tetra", False, 3, 2, 1, 1e-3)]
+    else:
+        supplied = [(lattice, cart, 3, nb, sup) for lattice in ("cubic", "tetra", "hex", "tric") for cart in (True, False) for sup in (1, 2, 3) for nb in (1, 2)
+                    if not (nb == 2 and lattice in ("hex", "tric") and sup == 1)]
+        faces += [("hex", False, 3, 1, 0, 1e-4), ("tetra", False, 3, 2, 1, 1e-3), ("tric", False, 3, 3, 2, 1e-4), ("cubic", False, 3, 1, 2, 1e-3)]
     for lattice, cart, deg, sup, axis, dk in faces:
         spec = dict(lattice=lattice, cartesian=cart, deg=deg, nb=1, dk=dk, nk=1, dkorders=3, orders=3, face=True, face_axis=axis, supplied=sup)
         out.append(Case(f"kp-face {lattice} {'cartesian' if cart else 'reduced'} deg={deg} nb=1 dk={dk} analytic derivatives supplied up to order {sup}: k_{axis} anywhere in [-1/2,1/2), "
                         "derivatives 1..3", case_run, dict(spec=spec), timeout=1500))
+    for lattice, cart, deg, nb, sup in supplied:
+        spec = dict(lattice=lattice, cartesian=cart, deg=deg, nb=nb, dk=1e-4, nk=1, dkorders=3, orders=3, supplied=sup)
+        out.append(Case(f"kp-supplied {lattice} {'cartesian' if cart else 'reduced'} deg={deg} nb={nb}: analytic derivatives supplied up to order {sup}, higher ones numerical", case_run,
+                        dict(spec=spec), timeout=3000))
     for lattice, cart, deg, nb, dk in combos:
         spec = dict(lattice=lattice, cartesian=cart, deg=deg, nb=nb, dk=dk, nk=1 if (q or nb > 1) else 2, dkorders=2 if nb > 1 else 3, orders=2 if (lattice == "tric" and (q or nb > 1)) else 3)
         out.append(Case(f"kp {lattice} {'cartesian' if cart else 'reduced'} deg={deg} nb={nb} dk={dk}", case_run, dict(spec=spec), timeout=3000))
